@@ -76,6 +76,8 @@ def mutate(fr, mut):
         observed = [v for v in c["values"] if v is not None]
         keep = observed[mut["pick"] % len(observed)] if observed else None
         lv = E.levels_of(fr, col)
+        if not lv:
+            return fr  # the resampled rows hold no level at all
         other = lv[(lv.index(keep) + 1) % len(lv)] if keep in lv and len(lv) > 1 else keep
         if mut.get("single"):
             c["values"] = [keep for _ in c["values"]]
@@ -87,7 +89,8 @@ def mutate(fr, mut):
             # an independently built categorical: only the observed levels, sorted
             c["categories"] = sorted({v for v in c["values"] if v is not None}, key=str)
     elif kind == "unseen-observed":
-        new = 99 if col == "G" else "NEW"
+        # the new level may be a falsy label (0 / empty string)
+        new = (0 if mut["pick"] % 2 else 99) if col == "G" else ("" if mut["pick"] % 2 else "NEW")
         pos = {p % n for p in mut["rows"]} or {0}
         c["values"] = [new if i in pos else v for i, v in enumerate(c["values"])]
         if c["dtype"] == "category":
@@ -98,11 +101,39 @@ def mutate(fr, mut):
     return fr
 
 
+ODD_CAT = "s:t"  # a categorical column whose (quoted) name contains the interaction operator
+
+
+def rename_col(obj, old, new):
+    """Rename a data column in a frame case / formula case / mutation (deep copy)."""
+    obj = copy.deepcopy(obj)
+
+    def walk(o):
+        if isinstance(o, dict):
+            if "cols" in o and isinstance(o["cols"], dict) and old in o["cols"]:
+                o["cols"] = {(new if k == old else k): v for k, v in o["cols"].items()}
+            if o.get("col") == old:
+                o["col"] = new
+            if isinstance(o.get("cols"), list):
+                o["cols"] = [new if c == old else c for c in o["cols"]]
+            for v in o.values():
+                walk(v)
+        elif isinstance(o, list):
+            for v in o:
+                walk(v)
+
+    walk(obj)
+    return obj
+
+
 def check_case(case) -> Outcome:
     from formulaic.errors import DataMismatchWarning, FactorEncodingError, FormulaicError
     from ..libio import model_matrix
 
     out = Outcome()
+    if case.get("rename"):
+        case = rename_col({k: v for k, v in case.items() if k != "rename"}, case["rename"], ODD_CAT)
+        out.label("quoted-colon-name")
     tr, fc, efr, output, mut = case["frame"], case["formula"], case["efr"], case["output"], case["mutation"]
     s = F.formula_string(fc)
     df = F.build(tr)
@@ -110,6 +141,14 @@ def check_case(case) -> Outcome:
     mm = model_matrix(s, df, ensure_full_rank=efr, output=output, na_action=na)
     spec = mm.model_spec
     out.label("na:" + na)
+    # levels are learnt from the rows that survive the missing-data policy of the training build
+    tr_levels = tr
+    if na == "drop":
+        from .C06 import null_rows as _nr
+
+        gone_tr = _nr(fc, tr)
+        if gone_tr:
+            tr_levels = F.take_rows(tr, [i for i in range(tr["n"]) if i not in gone_tr])
     if case.get("subset") and len(fc["terms"]) >= 2:
         # keep only some of the terms (Term objects of the fitted spec), e.g. an interaction without its margins
         lib_terms = [t for t in spec.formula if any(f.eval_method.value != "literal" for f in t.factors)]
@@ -165,9 +204,22 @@ def check_case(case) -> Outcome:
     if got_names != names or (output == "pandas" and list(res.columns) != names):
         out.fail("columns-reshaped", f"{s!r} {kind} on {col}: {got_names} vs training {names}", **feat)
         return out
+    if na == "drop":
+        # rows of the follow-up holding a null in a used column are dropped (C06 owns the exact policy)
+        from .C06 import null_rows
+
+        gone = null_rows(fc, fol)
+        if gone:
+            out.label("follow-up-null-rows-dropped")
+            keep_rows = [i for i in range(fol["n"]) if i not in gone]
+            fol = F.take_rows(fol, keep_rows)
+            rows = [rows[i] for i in keep_rows]
+    if dense(res).size != len(rows) * len(names):
+        out.fail("row-count", f"{s!r} {kind} on {col}: {dense(res).shape} for {len(rows)} expected rows x {len(names)} columns", **feat)
+        return out
     M = dense(res).reshape(len(rows), len(names)) if names else np.zeros((len(rows), 0))
     # expected with the training levels
-    lv = levels_map(fc, tr)
+    lv = levels_map(fc, tr_levels)
     if efr:
         st_ = read_structure(spec)
         en, eM = E.expected_from_structure(fc, fol, [(a, b, c) for a, b, c, _ in st_], levels_override=lv)
@@ -179,10 +231,22 @@ def check_case(case) -> Outcome:
     if not np.allclose(M, eM, rtol=1e-9, atol=1e-9, equal_nan=True):
         bad = [names[j] for j in range(len(names)) if not np.allclose(M[:, j], eM[:, j], rtol=1e-9, atol=1e-9, equal_nan=True)]
         out.fail("values-with-training-levels", f"{s!r} {kind} on {col} (follow-up {fol['cols'][col]}): columns {bad}\n got {M.tolist()}\n exp {eM.tolist()}", **feat)
-    unseen_observed = kind == "unseen-observed" and bool(roles & {"cat", "C"})
+    # an unseen level is "observed" if some surviving follow-up row holds a value outside the levels in force for a
+    # categorical factor (explicit levels=[...] or the levels learnt from the surviving training rows)
+    unseen_observed = False
+    for t_ in fc["terms"]:
+        for f_ in t_:
+            if f_["k"] in ("cat", "C"):
+                lv_f = list(f_["levels"]) if f_.get("levels") else E.levels_of(tr_levels, f_["col"])
+                if any(v is not None and v not in lv_f for v in fol["cols"][f_["col"]]["values"]):
+                    unseen_observed = True
     if unseen_observed and not warned:
         out.fail("unseen-level-warning", f"{s!r}: follow-up {col} contains an unseen level but no DataMismatchWarning was emitted", **feat)
-    if warned and not unseen_observed:
+    kept_null_level = na == "ignore" and any(v is None for c_ in used_cols(fc) if c_ in fol["cols"] and c_ not in F.NUM_COLS for v in fol["cols"][c_]["values"])
+    if kept_null_level:
+        # a missing value kept under "ignore" is itself reported as a category outside the levels: not asserted either way
+        out.label("kept-null-in-categorical")
+    if warned and not unseen_observed and not kept_null_level:
         out.fail("spurious-mismatch-warning", f"{s!r} {kind} on {col}: DataMismatchWarning although no unseen level is observed: {[str(x.message)[:100] for x in w]}", **feat)
     # a second application behaves identically (warning included)
     if unseen_observed:
@@ -199,7 +263,7 @@ def check_case(case) -> Outcome:
 def gen(max_rows=10):
     @st.composite
     def strat(draw):
-        fr = draw(F.frame(min_rows=2, max_rows=max_rows))
+        fr = draw(F.frame(min_rows=2, max_rows=max_rows, nulls=draw(st.booleans())))
         fc = draw(F.formulas(max_terms=3, max_factors=3, polyraw=False))
         cols_used = sorted(used_cols(fc)) or ["x"]
         col = draw(st.sampled_from(cols_used + cols_used + ["A", "x"]))
@@ -212,6 +276,7 @@ def gen(max_rows=10):
             "mutation": mut, "rows": draw(st.lists(st.integers(0, 30), min_size=1, max_size=8)),
             "na_action": draw(st.sampled_from(["drop", "drop", "ignore"])),
             "subset": draw(st.one_of(st.none(), st.none(), st.lists(st.integers(0, 5), min_size=1, max_size=2))),
+            "rename": draw(st.sampled_from([None, None, "A", "B"])),
         }
 
     return strat()
